@@ -25,6 +25,9 @@ def gen_ns(rng, valid_bias=0.5):
         extras = []
         if name in lpcommon.LISTY:
             extras = [rng.randint(0, 4) for _ in range(rng.choice([0, 0, 1, 2, 3]))]
+            if rng.random() < 0.25:
+                # negative extra arguments are plain integers for argparse; the same negative number may occur twice
+                extras = [rng.choice([-1, -1, -2]) for _ in extras] or extras
         ns[name] = [pos] + extras
     return ns
 
